@@ -65,6 +65,7 @@ def field_rel(A, B, V, floors=None):
     r = np.where(na & nb, 0.0, r)
     r = np.where(na ^ nb, 1.0, r)
     r[SD] = np.where((np.abs(A[SD]) + np.abs(B[SD])) > 0, r[SD], 0.0)
+    r[E] = np.where(na[E] | nb[E], 0.0, r[E])      # e is derived (p / rho (gamma-1)); undefined (0/0) in a vacuum
     return r
 
 
